@@ -88,6 +88,12 @@ ObsInit == [
   closeCalled |-> FALSE, closeReturned |-> FALSE, stoppedSeen |-> FALSE,
   needClose |-> [v \in VB |-> 0 - 1],    \* positions settled before Close() was called (C13)
   closereq |-> {},                        \* vBuckets for which CloseStream was requested since they were opened
+  \* ---- metrics (C16) --------------------------------------------------------------
+  shigh    |-> [v \in VB |-> 0],          \* high seqnos handed to the scrape in progress
+  kcnt     |-> [v \in VB |-> <<0, 0, 0>>],\* document events of each kind accepted in the session (push returned)
+  lastdoc  |-> [v \in VB |-> ""],         \* kind of the accepted document event whose push has not returned yet
+  nreb     |-> 0,                         \* completed rebalances
+  sminfo   |-> <<1, 1>>,                  \* membership the current session was opened with
   viol     |-> {}
 ]
 
@@ -108,7 +114,8 @@ Unconfirmed(o) == {v \in VB : o.adv[v] > o.conf[v]}
 ApBoot(o, e) ==
   [o EXCEPT !.phase = "init", !.auto = e.auto, !.finite = e.finite, !.minfo = <<e.member, e.total>>, !.nbursts = 0, !.ncycles = 0,
             !.burstOpen = FALSE, !.ended = {}, !.reopen = {}, !.closeCalled = FALSE, !.closeReturned = FALSE,
-            !.stoppedSeen = FALSE, !.closereq = {}, !.high = [v \in VB |-> 0 - 1],
+            !.stoppedSeen = FALSE, !.closereq = {}, !.high = [v \in VB |-> 0 - 1], !.nreb = 0,
+            !.kcnt = [v \in VB |-> <<0, 0, 0>>], !.lastdoc = [v \in VB |-> ""],
             !.up = TRUE, !.boots = @ + 1, !.saves = {}, !.closing = FALSE, !.mustdie = FALSE,
             !.streaming = [v \in VB |-> FALSE], !.inpush = [v \in VB |-> FALSE], !.range = {},
             !.adv = [v \in VB |-> 0 - 1], !.conf = [v \in VB |-> StoreSeq(o, v)], !.news = FALSE, !.owned = {}]
@@ -119,7 +126,8 @@ ApDied(o, e) == [o EXCEPT !.up = FALSE, !.mustdie = FALSE]
 ApLoad(o, e) ==
   Check(
   \* (acknowledgements that arrived while no session was open are given up: the new session loads the store)
-  [o EXCEPT !.ended = {}, !.reopen = {}, !.closereq = {},
+  [o EXCEPT !.ended = {}, !.reopen = {}, !.closereq = {}, !.sminfo = o.minfo,
+            !.kcnt = [v \in VB |-> <<0, 0, 0>>], !.lastdoc = [v \in VB |-> ""],
             !.saves = {[x EXCEPT !.need = [v \in VB |-> 0 - 1]] : x \in @},
             !.range = SeqToSet(e.vbs), !.adv = [v \in VB |-> 0 - 1], !.closing = FALSE,
             !.sess = [v \in VB |-> {}]],
@@ -127,7 +135,8 @@ ApLoad(o, e) ==
 
 \* GetVBucketSeqNos answered: e.ok, e.high
 ApSeqNos(o, e) ==
-  IF ~e.ok THEN [o EXCEPT !.mustdie = TRUE]
+  IF e.scrape THEN [o EXCEPT !.shigh = e.high]
+  ELSE IF ~e.ok THEN [o EXCEPT !.mustdie = TRUE]
   ELSE LET latest == e.latest /\ \A v \in o.range : o.store[v] = NoOff
            ahead == ~latest /\ \E v \in o.range : o.store[v] # NoOff /\ o.store[v].seq > e.high[v]
            \* the backend handed back documents for only part of the assignment
@@ -150,6 +159,7 @@ ApOpenReq(o, e) ==
                 !.streaming[v] = TRUE, !.expect[v] = <<>>, !.got[v] = <<>>,
                 !.snap[v] = <<0 - 1, 0 - 1>>, !.catchF[v] = 0 - 1,
                 !.origin[v] = @ \cup {e.off}, !.reopen = @ \ {v}, !.closereq = @ \ {v},
+                !.kcnt[v] = IF isReopen THEN @ ELSE <<0, 0, 0>>, !.lastdoc[v] = "",
                 !.adv[v] = IF isReopen THEN @ ELSE IF fresh THEN e.off.seq ELSE 0 - 1,
                 !.saves = IF isReopen THEN @ ELSE {[x EXCEPT !.need[v] = 0 - 1] : x \in @}]
       o2 == Check(o1, ~o.closeReturned, "C13", "stream requested after Close() returned")
@@ -199,21 +209,24 @@ ApSent(o, e) ==
            inside == o.snap[v][1] <= x.q /\ x.q <= o.snap[v][2]
            o1 == [o0 EXCEPT !.origin[v] = IF inside THEN @ \cup {f} ELSE @]
        IN
-       IF filtered THEN o1
+       IF filtered THEN [o1 EXCEPT !.lastdoc[v] = ""]
        ELSE IF ~inside THEN [o1 EXCEPT !.mustdie = TRUE]
        ELSE IF Absorbable(x) THEN
-            [o1 EXCEPT !.ever[v] = @ \cup {x.q},
+            [o1 EXCEPT !.lastdoc[v] = IF IsDoc(x) THEN x.k ELSE "",
+                       !.ever[v] = @ \cup {x.q},
                        !.sess[v] = IF dead THEN @ ELSE @ \cup {x.q},
                        !.adv[v] = IF dead \/ v \notin o.range \/ ~NonDocAdvance(x) THEN @
                                   ELSE IF x.q > @ THEN x.q ELSE @]
        ELSE IF IsDoc(x) /\ ~dead
-            THEN [o1 EXCEPT !.expect[v] = Append(@, [k |-> x.k, q |-> x.q, off |-> f])]
-            ELSE o1
+            THEN [o1 EXCEPT !.expect[v] = Append(@, [k |-> x.k, q |-> x.q, off |-> f]), !.lastdoc[v] = x.k]
+            ELSE [o1 EXCEPT !.lastdoc[v] = ""]
 
 \* the call that handed the event to the library returned
 ApPushed(o, e) ==
   LET v == e.vb
-      o1 == [o EXCEPT !.inpush[v] = FALSE]
+      BumpK(c, k) == IF k = "mut" THEN <<c[1] + 1, c[2], c[3]>> ELSE IF k = "del" THEN <<c[1], c[2] + 1, c[3]>>
+                     ELSE IF k = "exp" THEN <<c[1], c[2], c[3] + 1>> ELSE c
+      o1 == [o EXCEPT !.inpush[v] = FALSE, !.kcnt[v] = BumpK(@, o.lastdoc[v]), !.lastdoc[v] = ""]
       o2 == Check(o1, ~o.mustdie, "C06", "event outside its snapshot did not stop the client")
   IN  IF o.closing \/ ~o.streaming[v] THEN o2
       ELSE Check(o2, Len(o.got[v]) = Len(o.expect[v]), "C03", "document event sent but not delivered")
@@ -342,7 +355,8 @@ ApCallback(o, e) ==
             THEN Check([o1 EXCEPT !.ncycles = @ + 1], o.ncycles + 1 <= o.nbursts, "C11",
                        "the stream was closed more than once for one burst of notifications")
             ELSE o1
-      o3 == IF e.name = "BeforeRebalanceEnd" THEN [o2 EXCEPT !.burstOpen = FALSE] ELSE o2
+      o3 == IF e.name = "BeforeRebalanceEnd" THEN [o2 EXCEPT !.burstOpen = FALSE]
+            ELSE IF e.name = "AfterRebalanceEnd" THEN [o2 EXCEPT !.nreb = @ + 1] ELSE o2
       o4 == IF e.name = "AfterStreamStart"
             THEN Check(Check(o3, \A v \in o.range : o.streaming[v], "C15",
                              "session runs although not every assigned vBucket stream was opened"),
@@ -385,6 +399,30 @@ ApCloseReturn(o, e) ==
       o1 == [o EXCEPT !.closeReturned = TRUE]
       o2 == Check(o1, lost = {}, "C13", "Close() returned but a position settled before the call is not stored")
   IN  Check(o2, open_ = {}, "C13", "Close() returned but a vBucket stream was never closed")
+
+\* a scrape of the metrics endpoint returned e (C16)
+ApScrape(o, e) ==
+  IF e.closed THEN o
+  ELSE
+  LET live == o.phase = "open" /\ ~o.closing /\ ~o.closeCalled
+      posOK(v) == IF v \in o.range
+                  THEN e.pos[v] # NoOff /\ e.pos[v].seq = MaxOf(o.sess[v]) /\ e.pos[v] \in o.origin[v]
+                  ELSE e.pos[v] = NoOff
+      lagOf(v) == IF e.pos[v] = NoOff THEN 0 ELSE IF o.shigh[v] > e.pos[v].seq THEN o.shigh[v] - e.pos[v].seq ELSE 0
+      RECURSIVE SumL(_)
+      SumL(S) == IF S = {} THEN 0 ELSE LET x == CHOOSE y \in S : TRUE IN lagOf(x) + SumL(S \ {x})
+      cntOK(v) == \/ e.cnt[v] = o.kcnt[v]
+                  \/ (o.inpush[v] /\ o.lastdoc[v] # "" /\ \E k \in 1..3 : e.cnt[v] = [o.kcnt[v] EXCEPT ![k] = @ + 1])
+      o1 == Check(o, \A v \in VB : e.lag[v] = lagOf(v), "C16", "lag gauge is not max(0, high seqno - tracked seqno)")
+      o2 == Check(o1, e.total = SumL(VB), "C16", "total lag is not the sum of the per-vBucket lags")
+      o3 == IF live /\ \A v \in VB : ~o.inpush[v]
+            THEN Check(o2, \A v \in VB : posOK(v), "C16", "position gauges differ from the tracked position and its snapshot") ELSE o2
+      o4 == IF live THEN Check(o3, \A v \in o.range : cntOK(v), "C16", "mutation/deletion/expiration counters differ from the events accepted in the session") ELSE o3
+      o5 == IF live /\ ~o.stoppedSeen THEN Check(o4, e.active = Cardinality(o.range \ o.ended), "C16", "active-stream gauge is wrong") ELSE o4
+      o6 == Check(o5, e.rebalances = o.nreb, "C16", "rebalance counter differs from the completed rebalances")
+  IN  IF live THEN Check(o6, <<e.member, e.totalm>> = o.sminfo /\ e.rlo = ChunkLoP(e.totalm, e.member) /\ e.rhi = ChunkHiP(e.totalm, e.member),
+                         "C16", "member number / group size / vBucket range gauges are not the values in effect")
+      ELSE o6
 
 \* the run is over: nothing is pending anywhere (every gate released, no timer armed, a last save done)
 ApQuiesced(o, e) ==
@@ -430,6 +468,7 @@ Apply(o, e) ==
     [] e.ev = "CloseCall"  -> ApCloseCall(o, e)
     [] e.ev = "CloseReturn" -> ApCloseReturn(o, e)
     [] e.ev = "Quiesced"   -> ApQuiesced(o, e)
+    [] e.ev = "Scrape"     -> ApScrape(o, e)
     [] e.ev = "Load"       -> ApLoad(o, e)
     [] e.ev = "OpenReq"    -> ApOpenReq(o, e)
     [] e.ev = "OpenRet"    -> ApOpenRet(o, e)
